@@ -17,6 +17,7 @@ CONSTANTS
   MaxNow = 40
   FixD1 = TRUE
   Msgs <- MsgsC
+  Apps <- AppsSmall
 CONSTRAINT TimeBound
 VIEW view
 INVARIANT NoMonitorRejects
